@@ -28,6 +28,10 @@ pub struct Cfg {
     /// size limit of each of the levels 1..=5 in bytes (0 = RainDB's defaults of 10 MiB x 10^(l-1));
     /// small values let a bounded exploration fill the deep levels (hook `set_level_size_limits`)
     pub level_limit: u64,
+    /// use a filter policy that answers 'may match' for every key (a legal policy: no false
+    /// negatives): every lookup reaches the data blocks, so the block-search paths that a Bloom
+    /// filter hides for 99% of the absent keys are exercised
+    pub permissive_filter: bool,
 }
 
 impl Cfg {
@@ -38,7 +42,12 @@ impl Cfg {
             block,
             reuse,
             level_limit: 0,
+            permissive_filter: false,
         }
+    }
+    pub const fn with_permissive_filter(mut self) -> Self {
+        self.permissive_filter = true;
+        self
     }
     pub const fn with_level_limit(mut self, bytes: u64) -> Self {
         self.level_limit = bytes;
@@ -52,7 +61,7 @@ impl Cfg {
             self.block,
             if self.reuse { "reuse" } else { "noreuse" },
             if self.level_limit > 0 { format!("_levels{}", self.level_limit) } else { String::new() }
-        )
+        ) + if self.permissive_filter { "_filterAlwaysTrue" } else { "" }
     }
     pub fn parse(s: &str) -> Option<Cfg> {
         // T1 | T300 | M2 | D, optional suffix "n" = reuse_log_files false
@@ -72,6 +81,9 @@ impl Cfg {
             // every level 1..=5 overflows with its second ~150-byte file: data cascades to level 6
             "L" => Cfg::new(4 << 20, 300, 1, reuse).with_level_limit(250),
             "L1" => Cfg::new(4 << 20, 1, 1, reuse).with_level_limit(250),
+            // one entry per block / per file, every lookup passes the filter
+            "T300p" => Cfg::new(4 << 20, 300, 1, reuse).with_permissive_filter(),
+            "T1p" => Cfg::new(4 << 20, 1, 1, reuse).with_permissive_filter(),
             _ => return None,
         })
     }
@@ -259,6 +271,22 @@ pub fn value_for(stamp: u64, key_idx: u8, class: u8, cfg: &Cfg) -> Vec<u8> {
     v
 }
 
+/// A filter policy without false negatives and with nothing but false positives.
+#[derive(Debug)]
+pub struct AlwaysMayMatch;
+
+impl raindb::FilterPolicy for AlwaysMayMatch {
+    fn get_name(&self) -> String {
+        "verif.AlwaysMayMatch".to_string()
+    }
+    fn create_filter(&self, _keys: &[Vec<u8>]) -> Vec<u8> {
+        vec![1]
+    }
+    fn key_may_match(&self, _key: &[u8], _serialized_filter: &[u8]) -> Result<bool, raindb::filter_policy::FilterPolicyError> {
+        Ok(true)
+    }
+}
+
 pub fn db_options(fs: &VerifFs, cfg: &Cfg) -> DbOptions {
     // every field spelled out: `DbOptions::default()` allocates an 8 Mi-entry cache table and
     // asks the OS for the current directory
@@ -269,7 +297,7 @@ pub fn db_options(fs: &VerifFs, cfg: &Cfg) -> DbOptions {
         max_file_size: cfg.file,
         max_block_size: cfg.block,
         filesystem_provider: Arc::new(fs.clone()) as Arc<dyn FileSystem>,
-        filter_policy: Arc::new(raindb::BloomFilterPolicy::new(10)),
+        filter_policy: if cfg.permissive_filter { Arc::new(AlwaysMayMatch) } else { Arc::new(raindb::BloomFilterPolicy::new(10)) },
         block_cache: raindb::verif::block_cache(4096),
         create_if_missing: true,
         error_if_exists: false,
